@@ -145,6 +145,28 @@ def deduplicate(stix_obj_list):
     return list(unique_objs.values())
 
 
+def timestamp_sort_key(value):
+    """Return a value suitable for ordering timestamps chronologically.
+
+    Objects of unregistered custom types are kept as plain dictionaries, so
+    their timestamps are still text; text does not sort chronologically when
+    the number of fractional digits varies ("...:00Z" > "...:00.5Z").
+
+    Args:
+        value: a datetime, a STIX timestamp string, or None
+
+    Returns:
+        A datetime for timestamp strings, otherwise the value unchanged.
+
+    """
+    if isinstance(value, str):
+        try:
+            return parse_into_datetime(value)
+        except ValueError:
+            pass
+    return value
+
+
 def get_timestamp():
     """Return a STIX timestamp of the current date and time."""
     return STIXdatetime.now(tz=pytz.UTC)
